@@ -66,14 +66,16 @@ META = {
  "C04": dict(
    technique="contract-based deductive verification of the compiled kernels (closures extracted from compile_d_mat, captured variables "
              "declared and checked) and the d() methods against the documented formulas; lemmas symmetric / non-negative / zero on identical / "
-             "affine invariance over the reals; constructors of the positional, absolute and default combined dissimilarities (class invariant "
-             "through a function-valued field); the other families by a bounded stand-in",
+             "affine invariance over the reals; constructors of every family (class invariant through a function-valued field; the matrix builders "
+             "of the lambda / ordinal / numerical families with loop invariants and an induction lemma identifying the np.argsort enumeration "
+             "with the SortedSet enumeration); agreement of the two forms on encoded units by a bounded stand-in",
    level="Proved: positional kernel and method == ((|ds|+|de|)/(sum of durations))^2 * delta, absolute == [labels differ] * delta, precomputed "
          "kernel reads matrix[c1][c2] with the category index itself (cast modelled exactly), combined kernel == alpha*pos + beta*cat; "
          "after PositionalSporadicDissimilarity(d), AbsoluteCategoricalDissimilarity(d) and CombinedCategoricalDissimilarity(a, b, d) the "
          "object's d_mat IS that formula with the object's own delta_empty, and the one delta_empty reaches both components of the combined one.",
-   note="Bounded only: supplied components, precomputed / ordinal / numerical / Levenshtein constructors (label-order independence of their "
-        "matrices). Assumed: check_if_dissim changes nothing."),
+   note="Also proved: supplied components, precomputed / Levenshtein / ordinal / numerical constructors (their matrices do not depend on the "
+        "order in which labels are supplied). Assumed: check_if_dissim changes nothing; the Levenshtein distance is a function of the two "
+        "names; numpy argsort / unique / arange / number parsing models."),
  "C12": dict(
    technique="contract-based deductive verification of Alignment.gamma_k_disorder against a ghost fold written from the statement "
              "(three nested loop invariants over numerator, denominator and the two 'counted' flags; slice and enumerate desugared exactly)",
